@@ -417,6 +417,27 @@ def catalogue(rng, level=0, classes=None):
     add("DiagonalStack", dict(kind="identity+sum", dtype="float64"),
         lambda: linop.DiagonalStack([linop.Identity((3, 4), input_dtype=F64), linop.Sum((2, 3, 4), axis=0, input_dtype=F64)]),
         group="DiagonalStack(mixed collapse)")
+    # 3-D X-ray transforms whose detector covers the shadow of the volume in every view (mass conservation), one of them
+    # with more slices than the projector's internal slab length (10), so that several slabs are accumulated
+    for (shp, dshape) in [((11, 2, 2), (14, 14)), ((2, 3, 2), (6, 6)), ((12, 1, 2), (15, 15))]:
+        add("XRayTransform3D", dict(shape=shp, det_shape=dshape, covers=True),
+            lambda shp=shp, dshape=dshape: XRayTransform3D(
+                shp, XRayTransform3D.matrices_from_euler_angles(shp, dshape, "X", np.array([[0.0], [0.6], [1.4]])), dshape),
+            kind=APPROX, group="XRayTransform3D(covering detector)")
+    # central differences for the cylindrical gradient, incl. a permuted axis order
+    for c in [dict(shape=(3, 3, 2), cdiff=True), dict(shape=(2, 3, 3), axes=(1, 2, 0), cdiff=True)]:
+        add("CylindricalGradient", dict(c), lambda c=c: CylindricalGradient(c["shape"], axes=c.get("axes"), cdiff=True, input_dtype=F64),
+            kind=APPROX, group="CylindricalGradient(cdiff)")
+    # the padded circular convolution of the learned-model examples (single precision kernel), real and complex arrays
+    try:
+        from scico.flax.examples.data_preprocessing import PaddedCircularConvolve
+        for dtn in ("float32", "complex64"):
+            add("PaddedCircularConvolve", dict(output_size=(4, 4), channels=1, kernel_size=3, blur_sigma=1.0, dtype=dtn),
+                lambda dtn=dtn: PaddedCircularConvolve((4, 4), 1, 3, 1.0, dtype=np.dtype(dtn).type), kind=APPROX)
+            add("PaddedCircularConvolve", dict(output_size=(3, 4), channels=2, kernel_size=(3, 3), blur_sigma=0.5, dtype=dtn),
+                lambda dtn=dtn: PaddedCircularConvolve((3, 4), 2, (3, 3), 0.5, dtype=np.dtype(dtn).type), kind=APPROX)
+    except ImportError:
+        pass
     # DFT with axes not in increasing order (incl. negative indices) paired with an axes_shape
     for (shp, axes, axshape, norm) in [((2, 3, 2), (2, 0), (3, 4), None), ((3, 2), (-1, 0), (4, 2), "forward"),
                                        ((2, 2, 3), (1, 0), (4, 1), "ortho"), ((3, 2, 2), (2, 1), None, None)]:
